@@ -48,6 +48,9 @@ func c18(c *q.Ctx) {
 		c.ArgIs(g, "xModSnapshot.getPreOutExt", 3, "p2", 1, "and key")
 		c.Guard(g, q.Cond{Canon: "(nil == " + tx + ".Blockid)", Sense: true}, q.ToCallSameIter("xModSnapshot.genVerDataByTx"), q.Opt{})
 		c.Guard(g, q.Cond{Canon: "(p0.blkHeight < xmodel.(*xModSnapshot).getBlockHeight(p0," + tx + ".Blockid)#0)", Sense: true}, q.ToCallSameIter("xModSnapshot.genVerDataByTx"), q.Opt{})
+		// ... and no writer is accepted AROUND the height comparison (a flag "the snapshot is at the tip" decided when
+		// the reader was created goes stale as soon as the next block is confirmed)
+		c.Guard(g, q.Cond{Canon: "(p0.blkHeight < xmodel.(*xModSnapshot).getBlockHeight(p0," + tx + ".Blockid)#0)", Sense: true}, q.ToCallSameIter("xModSnapshot.genVerDataByTx"), q.Opt{From: "XModel.QueryTx"})
 		c.ArgIs(g, "xModSnapshot.genVerDataByTx", 1, tx, 1, "the value returned is an output of the writer that was found")
 		c.Gate(g, "XModel.QueryTx", q.ToSuccess(), q.Opt{K1Only: true, IgnoreBool: true})
 		c.Gate(g, "xModSnapshot.getPreOutExt", q.ToSuccess(), q.Opt{K1Only: true})
